@@ -452,4 +452,11 @@ def r9_calibration_values_reach_their_own_key(ctx):
     r1_slice_walk(ctx)
 
 
-RULES = [r9_calibration_values_reach_their_own_key, r8_values_reach_their_own_key, r7_literal_conversion, r6_assignment_does_not_leak_through_copies, r1_arguments_refuse_unknown, r2_set_is_existence_checked, r3_single_resolution_rule, r4_validate_steps, r5_assignment_is_local]
+def r10_a_swept_key_changes_only_that_setting(ctx):
+    """"Assigning through a key changes that setting and nothing else": in sequential sweeps every run's parameter set is the configured defaults with that run's ONE (key, value) laid over them in a fresh mapping - a value assigned for an earlier key must not stay in force for the runs of later keys (shared with C05.R2)."""
+    from props.C05 import r2_run_space
+
+    r2_run_space(ctx)
+
+
+RULES = [r10_a_swept_key_changes_only_that_setting, r9_calibration_values_reach_their_own_key, r8_values_reach_their_own_key, r7_literal_conversion, r6_assignment_does_not_leak_through_copies, r1_arguments_refuse_unknown, r2_set_is_existence_checked, r3_single_resolution_rule, r4_validate_steps, r5_assignment_is_local]
